@@ -181,7 +181,8 @@ Proof. exact source_fns_ok. Qed.
 Print Assumptions C04_source_functions_ok.
 
 Theorem C04_source_groupby_ok :
-  gfn_ok false gen_groupby_do_fn && gfn_ok true gen_groupby_map_fn && gen_groupby_count_agg_skeleton_ok = true.
+  gfn_ok false gen_groupby_do_fn && gfn_ok true gen_groupby_map_fn &&
+  (gcomp_ok false gen_groupby_count && gcomp_ok true gen_groupby_agg && gen_shuffle_groupby_skeleton_ok) = true.
 Proof. exact source_groupby_ok. Qed.
 Print Assumptions C04_source_groupby_ok.
 
